@@ -21,6 +21,10 @@ var noPanicAllow = map[string]string{
 	"fmt.Sprintf":                          "formats any operands; operands are basic values, strings, errors",
 	"fmt.Sprint":                           "formats any operands",
 	"errors.New":                           "allocates an error",
+	"log/slog.Debug":                       "logging; malformed key/value lists are reported as !BADKEY, not by panicking",
+	"log/slog.Info":                        "logging",
+	"log/slog.Warn":                        "logging",
+	"log/slog.Error":                       "logging",
 	"fmt.Errorf":                           "formats any operands (panics of operand methods are recovered by fmt)",
 	"fmt.Sprintln":                         "formats any operands",
 	"errors.Is":                            "walks the error chain",
@@ -510,7 +514,7 @@ func (b *boundsRun) consumesInput(ins ssa.Instruction, depth int) bool {
 			for _, r := range returnsOf(f) {
 				found := false
 				eachInstr(f, func(i2 ssa.Instruction) {
-					if i2 != ins && b.consumesInput(i2, depth+1) && instrDominates(i2, r) {
+					if i2 != ins && b.consumesInput(i2, depth+1) && instrDominatesT(i2, r) {
 						found = true
 					}
 				})
